@@ -267,6 +267,19 @@ class _EulerBernoulli(_GroupElem):
 
         return dddN_e_pg
 
+    # orientation of the derivatives
+
+    def _Get_fiber_sign_e_pg(self) -> FeArray.FeArrayALike:
+        """Sign of the derivative along the fiber (from the first node of the element to the last one) with
+        respect to the derivative the element provides.\n
+        The beam frame of `_Compute_P_e_pg` follows the fiber. An element that is not rebased in its own frame
+        (dim == inDim: it lies on the x-axis) differentiates along the global x-axis, which is the opposite
+        direction when the fiber runs towards -x. Odd-order derivatives must then change sign."""
+        if self.dim != self.inDim:
+            return 1.0
+        # one sign per element (the Jacobian of a segment does not change sign along it)
+        return FeArray.asfearray(np.sign(np.asarray(self.Get_F_e_pg(MatrixType.beam))[:, :1, 0, 0]))
+
     # projection matrix
 
     def _Compute_P_e_pg(self, beamStructure: "BeamStructure") -> FeArray.FeArrayALike:
@@ -429,6 +442,9 @@ class _EulerBernoulli(_GroupElem):
 
         # Recover matrices to work with
         dN_e_pg = self.Get_dN_e_pg(matrixType)
+        if dim > 1:
+            # derivative along the fiber, as the beam frame
+            dN_e_pg = dN_e_pg * self._Get_fiber_sign_e_pg()
         ddNv_e_pg = self.Get_Hermitian_ddN_e_pg()  # d²v/dx² — the EB bending curvature
 
         # Data
@@ -526,6 +542,8 @@ class _EulerBernoulli(_GroupElem):
         dim = beamStructure.dim
         dof_n = beamStructure.dof_n
         dddNv_e_pg = self.Get_Hermitian_dddN_e_pg()  # (Ne, nPg, 1, nPe*2)
+        # derivative along the fiber, as the beam frame
+        dddNv_e_pg = dddNv_e_pg * self._Get_fiber_sign_e_pg()
         nPe = self.nPe
         Ne, nPg = dddNv_e_pg.shape[:2]
 
@@ -656,6 +674,9 @@ class _Timoshenko(_EulerBernoulli):
 
         Nu_pg = self.Get_N_pg(matrixType)[:, 0, :]  # (nPg, nPe)
         dN_e_pg = self.Get_dN_e_pg(matrixType)  # (Ne, nPg, 1, nPe)
+        if dim > 1:
+            # derivative along the fiber, as the beam frame
+            dN_e_pg = dN_e_pg * self._Get_fiber_sign_e_pg()
 
         nPe = self.nPe
         Ne, nPg = dN_e_pg.shape[:2]
